@@ -20,7 +20,7 @@ MINE = lambda pred: pred not in START_PREDS
 
 
 def gen_cases(tier, seed):
-    n = {'quick': 6000, 'thorough': 600000}[tier]
+    n = {'quick': 18000, 'thorough': 600000}[tier]
     out = []
     for k in range(n):
         cs = case_seed(seed, PID, k)
